@@ -27,8 +27,8 @@ type replParams struct {
 	Inputs []string `json:"inputs"`
 	// FailInput/FailEval: force a checker failure in input FailInput at the
 	// FailEval-th phase boundary (0 = no failpoint)
-	FailInput int `json:"fail_input"`
-	FailEval  int `json:"fail_eval"`
+	FailInput int   `json:"fail_input"`
+	FailEval  int   `json:"fail_eval"`
 	Batch     []int `json:"batch"` // indices of inputs to compare with a batch run
 }
 
